@@ -47,7 +47,7 @@ LONG_THIN = [((1, 2), 9, 24, 5), ((1, 2, 3), 9, 16, 7), ((2, 3, 5), 9, 14, 10), 
 def tasks(tier):
     q = tier == "quick"
     ts = []
-    for ch in spaces.chunked(spaces.sequences(range(0, 7), 1, 5 if q else 6), 2500):
+    for ch in spaces.chunked(spaces.sequences(range(0, 7), 1, 5 if q else 7), 2500):
         ts.append(("seq-fit", ch, 6))
     if q:
         for ch in scopes.chunk_multisets(range(0, 11), 1, 6, 400):
@@ -63,24 +63,24 @@ def tasks(tier):
         for ch in scopes.chunk_multisets(alpha, 1, N, 120):
             ts.append(("ms-bc", ch, B))
     eighths = [Fraction(i, 8) for i in range(9)]
-    for ch in spaces.chunked(spaces.sequences(eighths, 1, 4 if q else 5), 1500):
+    for ch in spaces.chunked(spaces.sequences(eighths, 1, 4 if q else 6), 1500):
         ts.append(("dyadic", ch, 1))
-    for ch in scopes.chunk_multisets(range(0, 7), 1, 4 if q else 5, 60):
+    for ch in scopes.chunk_multisets(range(0, 7), 1, 4 if q else 6, 60):
         ts.append(("outs", ch, 6))
     # magnitudes at which a relative tolerance, a float32 or an int32 would bite: near-miss sums around a 2**32 bin,
     # and the same pattern scaled down to fractions with a 2**-32 grain (all exactly representable, all sums exact)
-    for ch in spaces.chunked(spaces.sequences(BIG_LETTERS, 1, 4 if q else 5), 400):
+    for ch in spaces.chunked(spaces.sequences(BIG_LETTERS, 1, 4 if q else 6), 400):
         ts.append(("big-fit", ch, BIG_B))
-    for ch in scopes.chunk_multisets(BIG_LETTERS, 1, 5 if q else 6, 200):
+    for ch in scopes.chunk_multisets(BIG_LETTERS, 1, 5 if q else 7, 200):
         ts.append(("ms-dec", ch, BIG_B))
         ts.append(("ms-bc", ch, BIG_B))
     fine = [Fraction(v, BIG_B) for v in BIG_LETTERS]
-    for ch in spaces.chunked(spaces.sequences(fine, 1, 4 if q else 5), 400):
+    for ch in spaces.chunked(spaces.sequences(fine, 1, 4 if q else 6), 400):
         ts.append(("dyadic", ch, 1))
     for Bh, letters in scopes.HALVES.items():          # multiples of 1/2 around B/2 and B, odd and even bin size
-        for ch in spaces.chunked(spaces.sequences(letters, 1, 4 if q else 5), 600):
+        for ch in spaces.chunked(spaces.sequences(letters, 1, 4 if q else 6), 600):
             ts.append(("halves", ch, Bh))
-        for ch in scopes.chunk_multisets(letters, 5, 7 if q else 8, 300):
+        for ch in scopes.chunk_multisets(letters, 5, 7 if q else 9, 300):
             ts.append(("halves", ch, Bh))
     # many items over tiny alphabets: bins of many items, long scans over many open bins
     for alpha, lo, hi, B in LONG_THIN:
